@@ -26,9 +26,10 @@ import (
 func TestMain(m *testing.M) { vlib.Main(m, "C13"); os.Exit(0) }
 
 type faultCase struct {
-	H     mx.History   `json:"history"`
-	Fault sched.Fault  `json:"fault"`
-	Rules []sched.Rule `json:"rules,omitempty"`
+	H      mx.History   `json:"history"`
+	Fault  sched.Fault  `json:"fault"`
+	Fault2 *sched.Fault `json:"fault2,omitempty"` // a second failing operation (sampled pairs)
+	Rules  []sched.Rule `json:"rules,omitempty"`
 }
 
 // fault points: step -> actions that make the operation following it fail
@@ -73,11 +74,13 @@ func workloads() []mx.History {
 }
 
 type runResult struct {
-	out     mx.Outcome
-	err     *mx.Err
-	sc      *sched.Scheduler
-	panic   interface{}
-	timeout bool
+	out        mx.Outcome
+	err        *mx.Err
+	sc         *sched.Scheduler
+	panic      interface{}
+	timeout    bool
+	cleanupErr error
+	residue    string // the sorter's directory if it still exists after CleanUp
 }
 
 func execute(h mx.History, faults []sched.Fault, rules []sched.Rule) runResult {
@@ -102,19 +105,37 @@ func execute(h mx.History, faults []sched.Fault, rules []sched.Rule) runResult {
 	var res runResult
 	select {
 	case res = <-done:
-	case <-time.After(30 * time.Second):
+	case <-time.After(10 * time.Second):
 		res = runResult{timeout: true, sc: sc}
 	}
-	for i := 0; i < 200 && sc.Count("write-received") != sc.Count("write-return-buffer"); i++ {
+	// let every background writer that was handed a run finish (after an error the caller has not
+	// gone through Finalise, which is what normally waits for them)
+	for i := 0; i < 500 && (sc.Count("write-received") < sc.Count("push-handoff") || sc.Count("write-received") != sc.Count("write-return-buffer")); i++ {
 		time.Sleep(time.Millisecond)
+	}
+	if !res.timeout {
+		// whatever happened before, CleanUp removes the sorter's directory
+		morass.VerifHook = nil
+		res.cleanupErr = s.M.CleanUp()
+		res.residue = s.OwnDir()
 	}
 	s.Close()
 	return res
 }
 
 func checkFault(c faultCase) *vlib.Failure {
-	res := execute(c.H, []sched.Fault{c.Fault}, c.Rules)
+	faults := []sched.Fault{c.Fault}
+	if c.Fault2 != nil {
+		faults = append(faults, *c.Fault2)
+	}
+	res := execute(c.H, faults, c.Rules)
 	what := fmt.Sprintf("fault %s at %s#%d (chunk %d, %d values, concurrent=%v)", c.Fault.Action, c.Fault.Step, c.Fault.Occ, c.H.Chunk, len(c.H.Cycles[0].Keys), c.H.Concurrent)
+	if c.Fault2 != nil {
+		what += fmt.Sprintf(" and %s at %s#%d", c.Fault2.Action, c.Fault2.Step, c.Fault2.Occ)
+	}
+	if len(c.H.Cycles) > 1 {
+		what += fmt.Sprintf(", then Clear and a second cycle of %d values", len(c.H.Cycles[1].Keys))
+	}
 	switch {
 	case res.timeout:
 		return vlib.Failf("deadlock", "%s: run did not finish; events: %s", what, res.sc.Trace(60))
@@ -126,6 +147,12 @@ func checkFault(c faultCase) *vlib.Failure {
 			return vlib.Failf("silent-"+res.err.Kind, "%s: every Push, Finalise and Pull reported success but %s; sabotage applied: %v", what, res.err.Msg, res.sc.Applied())
 		}
 		return vlib.Failf("wrong-values-before-error-"+res.err.Kind, "%s: %s (first error later: %v)", what, res.err.Msg, res.out.FirstError)
+	}
+	if res.residue != "" {
+		return vlib.Failf("cleanup-leaves-directory-after-fault", "%s: CleanUp returned %v and the directory %s still exists (sabotage applied: %v)", what, res.cleanupErr, res.residue, res.sc.Applied())
+	}
+	if res.out.Recovered > 0 {
+		vlib.Count("second-cycle-after-error-and-clear", 1)
 	}
 	applied := len(res.sc.Applied()) > 0
 	switch {
@@ -197,7 +224,26 @@ func TestFaultWithSchedule(t *testing.T) {
 				c.Rules = append(c.Rules, sched.Rule{Step: rapid.SampledFrom(steps).Draw(t, "step"), Occ: rapid.IntRange(0, nchunks).Draw(t, "occ"),
 					Until: rapid.SampledFrom(steps).Draw(t, "until"), UntilOcc: rapid.IntRange(0, nchunks).Draw(t, "until-occ"), TimeoutMs: rapid.SampledFrom([]int{20, 50}).Draw(t, "timeout")})
 			}
-			if rapid.IntRange(0, 2).Draw(t, "overwrite-template") == 0 {
+			switch rapid.IntRange(0, 5).Draw(t, "extra") {
+			case 0: // two writers fail one after the other
+				c.Fault = sched.Fault{Step: "write-before-encode", Occ: rapid.IntRange(0, chunk-1).Draw(t, "f1-enc"), Action: rapid.SampledFrom([]string{"readonly", "close"}).Draw(t, "f1-action")}
+				c.Fault2 = &sched.Fault{Step: "write-before-encode", Occ: chunk + rapid.IntRange(0, chunk-1).Draw(t, "f2-enc"), Action: rapid.SampledFrom([]string{"readonly", "close"}).Draw(t, "f2-action")}
+			case 1, 2: // the failing operation belongs to the last (synchronous) write; then Clear and use the sorter again
+				c.H = workload(chunk, nchunks*chunk+1, h.Struct, true)
+				c.Fault = sched.Fault{Step: rapid.SampledFrom([]string{"write-before-encode", "write-file-created"}).Draw(t, "last-step"), Action: "readonly"}
+				if c.Fault.Step == "write-before-encode" {
+					c.Fault.Occ = nchunks * chunk
+				} else {
+					c.Fault.Occ = nchunks
+				}
+				second := mx.Cycle{Pull: -1}
+				for i, m := 0, rapid.IntRange(chunk, 3*chunk+1).Draw(t, "second-n"); i < m; i++ {
+					second.Keys = append(second.Keys, (i*5+2)%9)
+				}
+				c.H.Recover = true
+				c.H.Cycles = append(c.H.Cycles, second)
+			}
+			if rapid.IntRange(0, 2).Draw(t, "overwrite-template") == 0 && c.Fault2 == nil && len(c.H.Cycles) == 1 {
 				// a failing writer, then a later writer's success, before the caller looks again
 				c.Fault = sched.Fault{Step: "write-before-encode", Occ: 0, Action: "readonly"}
 				c.Rules = []sched.Rule{
@@ -209,7 +255,17 @@ func TestFaultWithSchedule(t *testing.T) {
 			return c
 		},
 		Check: checkFault,
-		Classes: func(c faultCase) []string { return []string{c.Fault.Step + "/" + c.Fault.Action, vlib.NT} }})
+		Classes: func(c faultCase) []string {
+			l := []string{c.Fault.Step + "/" + c.Fault.Action, vlib.NT}
+			if c.Fault2 != nil {
+				l = append(l, "two-faults")
+			}
+			if len(c.H.Cycles) > 1 {
+				l = append(l, "reuse-after-failed-cycle")
+			}
+			return l
+		},
+		MinFrac: map[string]float64{"two-faults": 0.08, "reuse-after-failed-cycle": 0.15}})
 }
 
 // ---- residue ---------------------------------------------------------------------------
